@@ -39,7 +39,7 @@ def plan(tier: str, seed: int):
                  "args": {"n": 160, "tables": 14}, "timeout": 1500}
                 for i in range(4)]
     return [{"name": f"s{i}", "engine": "jit",
-             "args": {"n": 6000, "tables": 500}, "timeout": 3400}
+             "args": {"n": 12000, "tables": 1000}, "timeout": 3400}
             for i in range(16)]
 
 
